@@ -156,6 +156,15 @@ func (x *Exec) specEval(env *SpecEnv, e *SExpr) Value {
 			kv := x.specEval(env, e.Y)
 			v, _ := x.mapGet(env.st, bv, x.keyTerm(env.st, kv))
 			return v
+		case OpaqueV:
+			if bv.T.Sort.Elem != nil {
+				i := x.asTermAny(x.specEval(env, e.Y))
+				r := Select(bv.T, i)
+				if r.Sort == SBool {
+					return BoolV{r}
+				}
+				return IntV{r}
+			}
 		case PtrV:
 			a := x.heapLoad(env.st, bv)
 			i := x.specEval(env, e.Y).(IntV).T
@@ -577,8 +586,20 @@ func (x *Exec) specApply(env *SpecEnv, sf *SpecFunc, args []Value) Value {
 		x.specFail("spec function %s: %d arguments expected", sf.Name, len(sf.Params))
 	}
 	var flat []*Term
-	for _, a := range args {
+	for i, a := range args {
+		if sv, ok := a.(StrV); ok && !x.specUsesLen(sf, i) {
+			// the function does not depend on len(s): leave it out so that
+			// views of different length over the same bytes are congruent
+			flat = append(flat, sv.Arr, sv.Off)
+			continue
+		}
 		flat = append(flat, flattenSpecArg(x, a)...)
+	}
+	if sf.Body != nil && !x.specRecursive(sf) && x.specDepth < 200 {
+		// non-recursive spec functions are macros
+		x.specDepth++
+		defer func() { x.specDepth-- }()
+		return x.specBody(env, sf, args)
 	}
 	if sf.Body != nil && allConcrete(flat) && x.specDepth < 5000 {
 		x.specDepth++
@@ -608,9 +629,14 @@ func (x *Exec) specBody(env *SpecEnv, sf *SpecFunc, args []Value) Value {
 func (x *Exec) specArgsFromTerms(sf *SpecFunc, flat []*Term) []Value {
 	var out []Value
 	i := 0
-	for _, p := range sf.Params {
+	for pi, p := range sf.Params {
 		switch p.Type {
 		case "string", "bytes":
+			if !x.specUsesLen(sf, pi) {
+				out = append(out, StrV{Arr: flat[i], Off: flat[i+1], Len: App("nolen_"+sf.Name, SInt)})
+				i += 2
+				continue
+			}
 			out = append(out, StrV{Arr: flat[i], Off: flat[i+1], Len: flat[i+2]})
 			i += 3
 		case "bool":
@@ -737,4 +763,143 @@ func bigFromTerm(t *Term) (*big.Int, bool) {
 		return t.Int, true
 	}
 	return nil, false
+}
+
+// specUsesLen reports whether parameter i (a string) of sf has its length
+// observed by the body: len(p), p == q, slicing without upper bound, or being
+// passed to a spec function that observes it.
+func (x *Exec) specUsesLen(sf *SpecFunc, i int) bool {
+	key := sf.Name + "#" + fmt.Sprint(i)
+	if v, ok := x.usesLenMemo[key]; ok {
+		return v
+	}
+	if x.usesLenMemo == nil {
+		x.usesLenMemo = map[string]bool{}
+	}
+	if sf.Body == nil {
+		x.usesLenMemo[key] = true
+		return true
+	}
+	x.usesLenMemo[key] = false // assumption for recursive occurrences
+	name := sf.Params[i].Name
+	uses := false
+	var walk func(e *SExpr)
+	isP := func(e *SExpr) bool { return e != nil && e.Kind == SIdent && e.Name == name }
+	walk = func(e *SExpr) {
+		if e == nil || uses {
+			return
+		}
+		switch e.Kind {
+		case SCall:
+			if e.X.Kind == SIdent {
+				if e.X.Name == "len" && len(e.Args) == 1 && isP(e.Args[0]) {
+					uses = true
+					return
+				}
+				if callee, ok := x.C.Specs[e.X.Name]; ok {
+					for j, a := range e.Args {
+						if isP(a) && j < len(callee.Params) && x.specUsesLen(callee, j) {
+							uses = true
+							return
+						}
+					}
+				} else {
+					for _, a := range e.Args {
+						if isP(a) {
+							uses = true
+							return
+						}
+					}
+				}
+			}
+			for _, a := range e.Args {
+				if !isP(a) {
+					walk(a)
+				}
+			}
+			return
+		case SBinary:
+			if (e.Op == "==" || e.Op == "!=" || e.Op == "+") && (isP(e.X) || isP(e.Y)) {
+				uses = true
+				return
+			}
+		case SSlice:
+			if isP(e.X) {
+				if e.Z == nil {
+					uses = true
+					return
+				}
+				walk(e.Y)
+				walk(e.Z)
+				return
+			}
+		case SIndex:
+			if isP(e.X) {
+				walk(e.Y)
+				return
+			}
+		case SIdent:
+			if e.Name == name {
+				uses = true
+			}
+			return
+		}
+		walk(e.X)
+		walk(e.Y)
+		walk(e.Z)
+		for _, a := range e.Args {
+			walk(a)
+		}
+	}
+	walk(sf.Body)
+	x.usesLenMemo[key] = uses
+	return uses
+}
+
+// specRecursive reports whether sf can reach itself through spec-function calls.
+func (x *Exec) specRecursive(sf *SpecFunc) bool {
+	if v, ok := x.recMemo[sf.Name]; ok {
+		return v
+	}
+	if x.recMemo == nil {
+		x.recMemo = map[string]bool{}
+	}
+	seen := map[string]bool{}
+	var reach func(e *SExpr) bool
+	var visitFn func(name string) bool
+	visitFn = func(name string) bool {
+		if name == sf.Name {
+			return true
+		}
+		if seen[name] {
+			return false
+		}
+		seen[name] = true
+		if c, ok := x.C.Specs[name]; ok && c.Body != nil {
+			return reach(c.Body)
+		}
+		return false
+	}
+	reach = func(e *SExpr) bool {
+		if e == nil {
+			return false
+		}
+		if e.Kind == SCall && e.X.Kind == SIdent {
+			if _, ok := x.C.Specs[e.X.Name]; ok && visitFn(e.X.Name) {
+				return true
+			}
+		}
+		if reach(e.X) || reach(e.Y) || reach(e.Z) {
+			return true
+		}
+		for _, a := range e.Args {
+			if reach(a) {
+				return true
+			}
+		}
+		return false
+	}
+	r := sf.Body != nil && reach(sf.Body)
+	x.recMemo[sf.Name] = r
+	return r
 }
